@@ -816,6 +816,13 @@ pub fn oracle_c15(w: &World, obs: &RunObs) -> Result<(), (String, String)> {
     if let Err(e) = &obs.result {
         return Err((format!("run-aborted/{kinds}"), format!("policies {unevaluable:?} cannot be evaluated and the whole run failed: {e}")));
     }
+    // the removal of a policy that is no longer marked as managed is an update of "the others" too
+    let managed_names: BTreeSet<&String> = w.policies.iter().filter(|p| marked(p)).map(|p| &p.name).collect();
+    for (n, _) in &obs.after {
+        if !managed_names.contains(n) {
+            return Err((format!("stale-policy-not-removed/{kinds}"), format!("policy {n:?} is installed and no longer marked as managed, but it survived a successful run next to unevaluable {unevaluable:?}")));
+        }
+    }
     for (name, e) in &exp {
         if let Expect::Target(v4, v6) = e {
             let got = obs.after.iter().find(|(n, _)| n == name).map(|(_, p)| accept_sets(p));
